@@ -217,8 +217,41 @@ def compositional(clause, p, suppress, dmin, dmax, d, bh, env):
     return len(p.aliquots_whole) == len(aliq_blocks)
 
 
-def units():
+# ---- LotUnpacker: how many lots of a block the leading aliquot reaches (over the item abstraction of C05) --------------------------
+def reach_cut(thru, word):
+    """index of the leftmost item that restates the word 'Lot(s)' without closing a range; the leading aliquot stops before it"""
+    for j in range(1, len(thru) + 1):
+        if word[j - 1] and not thru[j - 1]:
+            return j
+    return len(thru) + 1
+
+
+reach_cut.__pyvc_native__ = True
+
+
+def _reach_units():
+    import itertools
+    from props import c05
     us = []
+    for k in (1, 2, 3):
+        for thru in c05._combos(k):
+            for word in itertools.product([False, True], repeat=k - 1):
+                word = list(word)
+                us.append(Unit(
+                    name=f'C06/LotUnpacker.unpack_lots[reach of the leading aliquot: {k} items, through={thru}, Lot restated={word}]', prop='C06',
+                    target='props.c05:unpack_lots', params={'n_items': Const(k)},
+                    ghost={'items': FixedList(*[Int(0, 999) for _ in range(k)]), 'thru': Const(thru), 'word_rightmost': Const(word)},
+                    requires=lambda items, thru: all([(not thru[n]) or (items[n] - items[n + 1] <= 3 and items[n + 1] - items[n] <= 3)
+                                                      for n in range(len(thru))]),
+                    setup_params=c05._setup('lot'), hooks={'max_range': 4},
+                    ensures=[('aliquot_reaches_the_lots_before_the_restated_word', lambda items, thru, word_rightmost, result:
+                              result[3] == len(c05.expand_items(items[:reach_cut(thru, word_rightmost)], thru[:reach_cut(thru, word_rightmost) - 1]))
+                              and result[0] == ['L' + str(x) for x in c05.expand_items(items, thru)])]))
+    return us
+
+
+def units():
+    us = _reach_units()
     for lots in ((), ('blockA',), ('blockA', 'blockB'), ('blockC', 'blockD'), ('blockC', 'blockA')):
         for aliqs in ((), ('aq1',), ('aq1', 'aq2')):
             for all_case in (('none', 'all', 'all with context') if not aliqs else ('none',)):
